@@ -4,9 +4,9 @@ sys.path.insert(0, os.path.dirname(os.path.dirname(os.path.abspath(__file__))))
 from checks import lib, mailfam
 
 ACTS = ["Deliver", "Select", "Noop", "Idle", "Store", "Fetch", "Expunge", "Append"]
-ALL = ACTS + ["Copy", "Move"]
+ALL = ACTS + ["Copy", "Move", "Search"]
 QUICK = {
-    "exhaustive": [("2sess-1mbox-2msgs-flags-depth6", dict(depth=6, maxid=2, acts=["Select", "Noop", "Store", "Fetch", "Append", "Idle"],
+    "exhaustive": [("2sess-1mbox-2msgs-flags-depth6", dict(depth=6, maxid=2, acts=["Select", "Noop", "Store", "Fetch", "Append", "Idle", "Search"],
                      flags='{{"Deleted"}, {"Seen"}, {"Flagged", "k1"}, {"Recent"}}', modes=("+", "-", "="),
                      silents="{FALSE, TRUE}"))],
     "simulate": [("2mbox", dict(mbox=("inbox", "b"), maxid=5, maxpend=8, sets="SetsMedium", acts=ALL,
@@ -17,7 +17,7 @@ QUICK = {
                                     "noop": 10, "idle": 4, "done": 4, "examine": 3}),
    }
 THOROUGH = {
-    "exhaustive": [("2sess-1mbox-2msgs-flags-depth8", dict(depth=8, maxid=2, acts=["Select", "Noop", "Store", "Fetch", "Append", "Idle"],
+    "exhaustive": [("2sess-1mbox-2msgs-flags-depth8", dict(depth=8, maxid=2, acts=["Select", "Noop", "Store", "Fetch", "Append", "Idle", "Search"],
                      flags='{{"Deleted"}, {"Seen"}, {"Flagged", "k1"}, {"Recent"}}', modes=("+", "-", "="),
                      silents="{FALSE, TRUE}")),
                    ("2sess-1mbox-3msgs-depth6", dict(depth=6, maxid=3, flags='{{"Deleted"}, {"Seen", "k1"}}',
